@@ -186,6 +186,14 @@ def p_ieee(I, a, n):
     return mk_real(ieee(a[0].t, _b(I, a[1])))
 
 
+def p_bound(I, a, n):
+    """bound('name'): the local variable has been assigned on this path (exit-state clauses that speak about a local
+    only from the point where it exists)"""
+    from .calls import literal_str
+    fr = getattr(I, 'spec_frame', None)
+    return mk_bool(fr is not None and fr.lookup(literal_str(a[0])) is not None)
+
+
 def p_feq(I, a, n):
     return mk_bool(as_real_term(a[0]) == as_real_term(a[1]))
 
@@ -272,4 +280,4 @@ def p_src_R(I, a, n):
 PRIMS = {'cap': p_cap, 'comparable': p_comparable, 'coerce_like': p_coerce_like, 'coercible': p_coercible, 'src_T': p_src_T, 'src_R': p_src_R, 'be': p_be, 'le': p_le, 'sl': p_sl, 'cat': p_cat, 'low': p_low, 'shr': p_shr, 'pow2': p_pow2, 'tb': p_tb,
          'tl': p_tl, 'bat': p_bat, 'rpow': p_rpow, 'rpow2': p_rpow2, 'bfind': p_bfind, 'band': p_band, 'bor': p_bor,
          'toreal': p_toreal, 'i2r': p_toreal, 'at': p_at, 'append': p_append, 'is_int_valued': p_is_int_valued,
-         'decode': p_decode, 'decodable': p_decodable, 'cls_is': p_cls_is, 'warned': p_warned, 'mset': p_mset, 'mdel': p_mdel, 'keys_of': p_keys_of, 'kind_is': p_kind_is, 'ieee': p_ieee, 'feq': p_feq, 'events': p_events, 'events0': p_events0, 'lcat': p_lcat}
+         'decode': p_decode, 'decodable': p_decodable, 'cls_is': p_cls_is, 'warned': p_warned, 'mset': p_mset, 'mdel': p_mdel, 'keys_of': p_keys_of, 'kind_is': p_kind_is, 'ieee': p_ieee, 'feq': p_feq, 'bound': p_bound, 'events': p_events, 'events0': p_events0, 'lcat': p_lcat}
